@@ -58,15 +58,18 @@ Section RunTotal.
   (** the bindings that can arise, the key lists handed to retain_keys, a bound
       on the number of candidates of one bind_all *)
   Variable Pm : M -> Prop.
+  (** ... and the candidates bind_all produces from them *)
+  Variable Pc : M -> Prop.
+  Hypothesis Pm_Pc : forall m, Pm m -> Pc m.
   Variable Bc : nat.
   Hypothesis Pm_empty : Pm (mempty D).
   (** the key lists handed to bind_all: scopes, and sub-lists of the keys recorded for a pattern *)
   Variable okks : list K -> Prop.
   Hypothesis okks_scope : forall st, In st (au_states A) -> okks (a_scope st).
   Hypothesis okks_match : forall st pk f, In st (au_states A) -> In pk (a_matches st) -> okks (filter f (snd pk)).
-  Hypothesis H_bind : forall m ks inc, Pm m -> okks ks -> exists l, bind_all D h m ks inc = Ok l /\ (length l <= Bc)%nat /\ Forall Pm l.
-  Hypothesis H_retain_scope : forall st m, In st (au_states A) -> Pm m -> exists m', mretain D (a_scope st) m = Ok m' /\ Pm m'.
-  Hypothesis H_retain_match : forall st pk m, In st (au_states A) -> In pk (a_matches st) -> Pm m ->
+  Hypothesis H_bind : forall m ks inc, Pm m -> okks ks -> exists l, bind_all D h m ks inc = Ok l /\ (length l <= Bc)%nat /\ Forall Pc l.
+  Hypothesis H_retain_scope : forall st m, In st (au_states A) -> Pc m -> exists m', mretain D (a_scope st) m = Ok m' /\ Pm m'.
+  Hypothesis H_retain_match : forall st pk m, In st (au_states A) -> In pk (a_matches st) -> Pc m ->
     exists m', mretain D (snd pk) m = Ok m'.
   Hypothesis H_sat : forall (c : constraint K P) m, length (cargs c) = arity D (cpred c) -> Pm m ->
     exists b, sat_or_false D h c m = Ok b.
@@ -144,7 +147,7 @@ Section RunTotal.
   Proof.
     intros Hst Hm. unfold emissions. apply rflatM_total'. intros [pid keys] Hpk. cbn zeta.
     set (new_keys := filter (fun k => match mget D m k with None => true | Some _ => false end) keys).
-    assert (Hbs : exists bs, match new_keys with [] => Ok [m] | _ => bind_all D h m new_keys false end = Ok bs /\ Forall Pm bs).
+    assert (Hbs : exists bs, match new_keys with [] => Ok [m] | _ => bind_all D h m new_keys false end = Ok bs /\ Forall Pc bs).
     { destruct new_keys as [|k0 nk] eqn:En; [exists [m]; split; auto|].
       destruct (H_bind m new_keys false Hm) as [l0 [E [_ F]]]; [apply (okks_match st (pid, keys) _ Hst Hpk)|].
       rewrite En in E. eauto. }
@@ -162,7 +165,7 @@ Section RunTotal.
     destruct (H_bind m (a_scope st) true Hm (okks_scope st Hst)) as [cands [B [Hlc HFc]]]. rewrite B. cbn [rbind].
     assert (HR : exists cands', rmapM (mretain D (a_scope st)) cands = Ok cands' /\ length cands' = length cands /\ Forall Pm cands').
     { clear B Hlc. induction cands as [|c cs IH]; [exists []; auto|]. inversion HFc as [|? ? Hc Hcs]; subst.
-      destruct (H_retain_scope st c Hst Hc) as [c' [Ec Pc]]. destruct (IH Hcs) as [cs' [Ecs [Hl Fc]]].
+      destruct (H_retain_scope st c Hst Hc) as [c' [Ec Pc']]. destruct (IH Hcs) as [cs' [Ecs [Hl Fc]]].
       exists (c' :: cs'). cbn [rmapM]. rewrite Ec. cbn [rbind]. rewrite Ecs. cbn [rbind length]. auto. }
     destruct HR as [cands' [R [Hl' HF']]]. rewrite R. cbn [rbind].
     destruct (cons_transitions_total st Hst) as [cts [CT Hlen]]. rewrite CT. cbn [rbind].
@@ -273,3 +276,119 @@ Section RunTotal.
     - cbn. lia.
   Qed.
 End RunTotal.
+
+(** ** no panic site is reachable (without a bound on the candidates: the result
+    is [Ok] or [OutOfFuel], whatever the fuel) *)
+Section RunNoPanic.
+  Context {K V M H P : Type} (D : DomOps K V M H P).
+  Variable A : automaton K P.
+  Variable ids : list N.
+  Hypothesis HWF : WF D A ids.
+  Hypothesis HAR : arity_ok D A = true.
+  Variable h : H.
+  Variable Pm : M -> Prop.
+  Variable Pc : M -> Prop.
+  Hypothesis Pm_Pc : forall m, Pm m -> Pc m.
+  Hypothesis Pm_empty : Pm (mempty D).
+  Variable okks : list K -> Prop.
+  Hypothesis okks_scope : forall st, In st (au_states A) -> okks (a_scope st).
+  Hypothesis okks_match : forall st pk f, In st (au_states A) -> In pk (a_matches st) -> okks (filter f (snd pk)).
+  Hypothesis H_bind : forall m ks inc, Pm m -> okks ks -> exists l, bind_all D h m ks inc = Ok l /\ Forall Pc l.
+  Hypothesis H_retain_scope : forall st m, In st (au_states A) -> Pc m -> exists m', mretain D (a_scope st) m = Ok m' /\ Pm m'.
+  Hypothesis H_retain_match : forall st pk m, In st (au_states A) -> In pk (a_matches st) -> Pc m ->
+    exists m', mretain D (snd pk) m = Ok m'.
+  Hypothesis H_sat : forall (c : constraint K P) m, length (cargs c) = arity D (cpred c) -> Pm m ->
+    exists b, sat_or_false D h c m = Ok b.
+
+  Definition not_panic {X} (r : res X) : Prop := match r with Panic _ => False | _ => True end.
+
+  Lemma emissions_ok' st m : In st (au_states A) -> Pm m -> exists e, emissions D h st m = Ok e.
+  Proof.
+    intros Hst Hm. unfold emissions. apply rflatM_total'. intros [pid keys] Hpk. cbn zeta.
+    set (new_keys := filter (fun k => match mget D m k with None => true | Some _ => false end) keys).
+    assert (Hbs : exists bs, match new_keys with [] => Ok [m] | _ => bind_all D h m new_keys false end = Ok bs /\ Forall Pc bs).
+    { destruct new_keys as [|k0 nk] eqn:En; [exists [m]; split; auto|].
+      destruct (H_bind m new_keys false Hm) as [l0 [E F]]; [apply (okks_match st (pid, keys) _ Hst Hpk)|].
+      rewrite En in E. eauto. }
+    destruct Hbs as [bs [-> HF]]. cbn [rbind].
+    destruct (rmapM_total (mretain D keys) bs) as [bs' [-> _]].
+    { intros b Hb. rewrite Forall_forall in HF. apply (H_retain_match st (pid, keys) b Hst Hpk (HF b Hb)). }
+    cbn [rbind]. eauto.
+  Qed.
+
+  Lemma filter_sat_ok' b (cts : list (constraint K P * N)) :
+    Pm b -> (forall c t, In (c, t) cts -> length (cargs c) = arity D (cpred c)) ->
+    exists fired, filter_sat D h b cts = Ok fired.
+  Proof.
+    intros Hb. induction cts as [|[c t] cts IH]; intros Ha; [exists []; reflexivity|].
+    destruct (H_sat c b (Ha c t (or_introl eq_refl)) Hb) as [bb Eb].
+    destruct IH as [r Er]; [intros c' t' Hin; apply (Ha c' t'); now right|].
+    exists (if bb then t :: r else r). cbn [filter_sat]. rewrite Eb. cbn [rbind]. rewrite Er. reflexivity.
+  Qed.
+
+  Lemma next_legal_ok' st m : In st (au_states A) -> Pm m ->
+    exists ys, next_legal_states D h st m = Ok ys
+               /\ forall y, In y ys -> Pm (snd y) /\ In (fst y) (state_ids A).
+  Proof.
+    intros Hst Hm. unfold next_legal_states.
+    destruct (H_bind m (a_scope st) true Hm (okks_scope st Hst)) as [cands [B HFc]]. rewrite B. cbn [rbind].
+    assert (HR : exists cands', rmapM (mretain D (a_scope st)) cands = Ok cands' /\ Forall Pm cands').
+    { clear B. induction cands as [|c cs IH]; [exists []; auto|]. inversion HFc as [|? ? Hc Hcs]; subst.
+      destruct (H_retain_scope st c Hst Hc) as [c' [Ec Pc']]. destruct (IH Hcs) as [cs' [Ecs Fc]].
+      exists (c' :: cs'). cbn [rmapM]. rewrite Ec. cbn [rbind]. rewrite Ecs. cbn [rbind]. auto. }
+    destruct HR as [cands' [R HF']]. rewrite R. cbn [rbind].
+    destruct (cons_transitions_total D A ids HWF st Hst) as [cts [CT Hlen]]. rewrite CT. cbn [rbind].
+    destruct (fail_next_total D A ids HWF st Hst) as [fo [FN Hfo]].
+    destruct (rflatM_total' (fun b =>
+                let* fired := filter_sat D h b cts in
+                let needs_fail := negb (a_det st) || match fired with [] => true | _ => false end in
+                let* fail := if needs_fail then fail_next_state st else Ok None in
+                Ok (map (fun t => (t, b)) fired ++ match fail with Some t => [(t, b)] | None => [] end)) cands')
+      as [ys E].
+    { intros b Hb. rewrite Forall_forall in HF'.
+      assert (Hfs : exists fired, filter_sat D h b cts = Ok fired).
+      { apply filter_sat_ok'; [apply HF'; exact Hb|].
+        intros c t Hin. destruct (cons_transitions_edge st cts c t CT Hin) as [e [He [Ec _]]].
+        unfold arity_ok in HAR. rewrite forallb_forall in HAR. specialize (HAR st Hst).
+        rewrite forallb_forall in HAR. specialize (HAR e He). rewrite Ec in HAR. now apply Nat.eqb_eq in HAR. }
+      destruct Hfs as [fired FS]. rewrite FS. cbn [rbind]. cbn zeta.
+      destruct (negb (a_det st) || match fired with [] => true | _ => false end); [rewrite FN|]; cbn [rbind]; eauto. }
+    exists ys. split; [exact E|].
+    intros [t b] Hy. cbn [fst snd].
+    destruct (proj1 (rflatM_in _ _ _ _ E) Hy) as [b0 [zs [Hb [Hf Hz]]]].
+    destruct (filter_sat D h b0 cts) as [fired| |] eqn:FS; cbn [rbind] in Hf; try discriminate.
+    cbn zeta in Hf.
+    destruct (if negb (a_det st) || match fired with [] => true | _ => false end then fail_next_state st else Ok None)
+      as [fail| |] eqn:FN'; cbn [rbind] in Hf; try discriminate.
+    inversion Hf; subst zs. rewrite Forall_forall in HF'. apply in_app_or in Hz as [Hz|Hz].
+    - apply in_map_iff in Hz as [t0 [Et Ht]]. inversion Et; subst. split; [auto|].
+      destruct (StringUnique.filter_sat_bwd D h b cts fired t FS Ht) as [c [Hct _]].
+      destruct (cons_transitions_edge st cts c t CT Hct) as [e [He [_ Het]]]. rewrite <- Het.
+      apply (wf_targets _ _ _ HWF st e Hst He).
+    - destruct fail as [t0|]; [|destruct Hz]. destruct Hz as [Et|[]]. inversion Et; subst. split; [auto|].
+      destruct (Hfo t) as [e [He Het]].
+      { destruct (negb (a_det st) || match fired with [] => true | _ => false end); [congruence|discriminate]. }
+      rewrite <- Het. apply (wf_targets _ _ _ HWF st e Hst He).
+  Qed.
+
+  Lemma run_loop_no_panic : forall fuel queue vis acc,
+    (forall x, In x queue -> In (fst x) (state_ids A) /\ Pm (snd x)) ->
+    not_panic (run_loop D fuel A h queue vis acc).
+  Proof.
+    induction fuel as [|f IH]; intros queue vis acc Hq; cbn [run_loop]; [exact I|].
+    destruct queue as [|[t m] q]; [exact I|].
+    destruct (Hq (t, m) (or_introl eq_refl)) as [Ht Hpm]. cbn [fst snd] in Ht, Hpm.
+    destruct (get_state_total A t Ht) as [st [G [Hst Hid]]]. rewrite G. cbn [rbind].
+    destruct (visited_mem D t (view D st m) vis).
+    - apply IH. intros x Hx. apply Hq. now right.
+    - destruct (emissions_ok' st m Hst Hpm) as [e ->]. cbn [rbind].
+      destruct (next_legal_ok' st m Hst Hpm) as [ys [-> Hsucc]]. cbn [rbind].
+      apply IH. intros x Hx. apply in_app_or in Hx as [Hx|Hx]; [apply Hq; now right|].
+      destruct (Hsucc x Hx). auto.
+  Qed.
+
+  Theorem run_no_panic_gen fuel : not_panic (run D fuel A h).
+  Proof.
+    unfold run. apply run_loop_no_panic. intros x [<-|[]]. cbn. split; [apply (wf_rooted _ _ _ HWF)|exact Pm_empty].
+  Qed.
+End RunNoPanic.
